@@ -72,11 +72,17 @@ Definition w3_true (t : truth3) (w : w3) : bool :=
 (** every retention boundary of the scanned range is checkpointed and retained in the pool *)
 Definition grid_ok (pol : option policy) (lo hi : Z) (s : pstate) : bool :=
   forallb (fun h => negb (oretains pol h) || (ck_has h (ck s) && zs_mem h (rt s))) (zrange lo hi).
-(** the same, restricted to heights above the pool's oldest checkpoint (what the code promises) *)
-Definition grid_ok_above (pol : option policy) (lo hi : Z) (s : pstate) : bool :=
+(** what the code promises (theorem C06_grid_retained): the same for every boundary whose block has a
+    commitment in this pool, and for the others when they lie above the pool's oldest checkpoint *)
+Definition grid_ok_above (pol : option policy) (lo hi : Z) (f : Z) (b : batch_in) (s : pstate) : bool :=
   forallb (fun h => negb (oretains pol h)
-                    || match ck_min (ck s) with Some m => h <=? m | None => true end
+                    || (negb (zs_mem h (map fst (own_ckpts f b)))
+                        && match ck_min (ck s) with Some m => h <=? m | None => true end)
                     || (ck_has h (ck s) && zs_mem h (rt s))) (zrange lo hi).
+Definition grid3_above (pol : option policy) (f : Z) (bs : b3) (w : w3) : bool :=
+  let '(b1, b2, b3) := bs in let '(s1, s2, s3) := w in
+  let lo := f + 1 in let hi := f + blen bs in
+  grid_ok_above pol lo hi f b1 s1 && grid_ok_above pol lo hi f b2 s2 && grid_ok_above pol lo hi f b3 s3.
 
 (** alignment of one batch: every height the batch checkpoints in some pool (or that is a retained
     boundary of the range) is, in pool [s], present, or not above the pool's oldest checkpoint, or
@@ -169,10 +175,10 @@ Definition known_class (c : case) : N :=
       let ledger_ok := w3_all ps_wf post && w3_true truth post && aligned3 pol f bs post in
       if roots_ok && wit_ok && ledger_ok
          && negb (w3_all (grid_ok pol (f + 1) (f + blen bs)) post)
-         && w3_all (grid_ok_above pol (f + 1) (f + blen bs)) post
+         && grid3_above pol f bs post
       then 1%N
       else if hazard && negb (roots_ok && wit_ok) && ledger_ok
-              && w3_all (grid_ok_above pol (f + 1) (f + blen bs)) post
+              && grid3_above pol f bs post
       then 2%N else 0%N
   | CPut _ _ _ pre _ _ _ (Err EOtherErr) post _ _ _ hazard =>
       if hazard && w3_eqb pre post then 2%N else 0%N
